@@ -146,7 +146,12 @@ impl World for Histories {
                 bump(&mut out.counters, "probe:re-entrant holding of a type the closure re-created", 1);
                 m.reentrant_hit = false;
             }
-            let real = apply_real(op, &mut st);
+            // an operation of the registry that panics where the model answers is an answer, too
+            // (the state may be half-moved afterwards; the history ends at the first mismatch)
+            let real = match guarded(|| apply_real(op, &mut st)) {
+                Ok(r) => r,
+                Err(_) => Ret::Panicked,
+            };
             out.steps += 1;
             fp.str(op_kind(op));
             fp.str(&format!("{expected:?}"));
